@@ -108,18 +108,20 @@ var codeLists = []string{"IMM01", "IMM", "ALL", "CTOR01", "CTOR", "CTOR03", "TON
 var hotCodes = []string{"PKGO01", "TONL01", "PKGO", "TONL", "ALL", "IMM01", "CTOR01", "IMM", "CTOR", "pkgo01", "Tonl01, PKGO01"}
 
 func (g *generator) ignoreComment() string {
+	// what gofmt leaves of differently indented comment lines: one blank, none, a tab, several blanks
+	lead := []string{"// ", "// ", "// ", "//", "//\t", "//   "}[g.xr.Intn(6)]
 	if g.r.Chance(1, 2) {
-		return "// @ignore " + rng.Pick(g.r, hotCodes)
+		return lead + "@ignore " + rng.Pick(g.r, hotCodes)
 	}
-	return "// @ignore " + rng.Pick(g.r, codeLists)
+	return lead + "@ignore " + rng.Pick(g.r, codeLists)
 }
 
 // commented-out annotations and other-case keywords followed by the lowercase keyword: used as doc lines
-var nearMissDocs = []string{"// // @immutable", "// / @constructor NewNothing", "//\t// @packageonly nobody", "// // @testonly",
+var nearMissDocs = []string{"// @immutables are a convention here", "// @immutableByConvention", "// @constructors NewX", "// @testonlyish helper", "// @packageonlysvc", "// @mutablefields", "// // @immutable", "// / @constructor NewNothing", "//\t// @packageonly nobody", "// // @testonly",
 	"// @Immutable is what the original says; the marker @immutable is not applied here", "// @TESTONLY (see @testonly)", "// @Constructor NewX - not @constructor NewX",
 	"// @PackageOnly svc, unlike @packageonly svc"}
 
-var nearMisses = []string{"// NOTE: the old line read: // @testonly (removed)", "// was: // @immutable", "// x // @packageonly svc", "// see @immutable for details", "// @Immutable", "// @immutablex", "/* @immutable */", "// TODO @constructor New", "//@testonlyish", "// @ packageonly", "// not @mutable", "// @IGNORE IMM01", "// @ignoreIMM01", "// x // @testonly"}
+var nearMisses = []string{"// NOTE: the old line read: // @testonly (removed)", "// was: // @immutable", "// x // @packageonly svc", "// see @immutable for details", "// @Immutable", "// @immutablex", "/* @immutable */", "// TODO @constructor New", "//@testonlyish", "// @ packageonly", "// not @mutable", "// @IGNORE IMM01", "// @ignoreIMM01", "// x // @testonly", "// v.X = 10 // @ignore IMM01", "// see below // @ignore ALL", "// was: _ = T{} // @ignore CTOR", "// @ignores IMM01"}
 
 func (g *generator) local(base string) string {
 	if g.o.RenameLocals {
@@ -428,7 +430,7 @@ func (g *generator) typeDecl(t *gtype) []string {
 		if t.mutable && t.ctorSplit {
 			multi = "\t// counters\n\t// @mutable\n\tHits, Misses int\n"
 		}
-		body = t.name + " struct {\n\tX     int\n\tItems []int\n\tM     map[string]int\n" + cache + multi + "}"
+		body = t.name + " struct {\n\tX     int\n\tItems []int\n\tM     map[string]int\n" + cache + multi + "\tAny   any\n}"
 	}
 	d := strings.Join(doc, "\n")
 	if d != "" {
@@ -468,6 +470,10 @@ func (g *generator) candidates(p *gpkg, t *gtype, v, w string) []string {
 			"_ = func(q "+tr(6)+") {}", "_ = func() *"+tr(7)+" { return nil }",
 			"_ = struct{ F "+tr(8)+" }{}",
 			v+".Misses++", v+".Hits = 1", w+".Misses += 2",
+			v+".X &^= 1", v+".X <<= 2", w+".X |= 3", v+".X %= 4", v+".X ^= 5", w+".X >>= 1", v+".X *= 2", v+".X /= 3", v+".X &= 7",
+			// a reported literal that contains further instantiations
+			"_ = "+tr(-1)+"{Any: "+tr(-1)+"{}}", "_ = &"+tr(-1)+"{Any: new("+tr(12)+")}", "_ = "+tr(-1)+"{Any: func() any { var z "+tr(-1)+"; return z }()}",
+			"_ = []"+tr(-1)+"{{Any: &"+tr(-1)+"{X: 1}}}", "_ = "+tr(-1)+"{Any: []*"+tr(-1)+"{{}}}",
 		)
 	} else {
 		c = append(c, "_ = "+tr(0)+"(3)", "_ = new("+tr(1)+")", "_ = func(q "+tr(2)+") {}")
@@ -653,6 +659,9 @@ func (g *generator) renderThin(m *Module, p *gpkg) {
 	b1 := "func ViaRelay() {\n" + indent(stmts) + "}"
 	// a third file whose only uses of the type are element literals with the type elided
 	m.Files[dir+"/thin_elided.go"] = "package thin\n\n" + imp(d0) + "\nvar Table = []" + a0 + "." + t.name + "{ " + g.nextTag() + "\n\t{X: 1}, " + g.nextTag() + "\n\t{X: 2}, " + g.nextTag() + "\n}\n\nvar ByName = map[string]*" + a0 + "." + t.name + "{\"a\": {X: 3}} " + g.nextTag() + "\n"
+	// a file in which the local name that the other files bind to the declaring package is bound to the relay
+	m.Files[dir+"/thin_same.go"] = "package thin\n\n" + fmt.Sprintf("import %s %q\n", a0, rl.path) + "\nfunc SameName() {\n" + indent([]string{
+		a0 + ".Current" + t.name + "().X = 1 " + g.nextTag(), "_ = " + a0 + ".Rec" + t.name + "{} " + g.nextTag(), "_ = " + a0 + ".Default" + t.name + " " + g.nextTag()}) + "}\n"
 	f0, f1 := 0, 1
 	if g.o.Reassign {
 		f0, f1 = g.lr.Intn(2), g.lr.Intn(2)
@@ -708,7 +717,7 @@ func (g *generator) renderPkg(m *Module, p *gpkg, decls []*gpkg) {
 			add("type A" + aliasKey(t) + " = " + direct)
 		}
 	}
-	add("type Free struct {\n\tX     int\n\tItems []int\n}")
+	add("type Free struct {\n\tX     int\n\tItems []int\n\tAny   any\n}")
 	// every visible type is referenced at least once in every rendering (so that alias declarations of the
 	// spelling variants do not introduce a first reference the base rendering lacks)
 	for i, t := range visible {
@@ -891,6 +900,35 @@ func (g *generator) renderPkg(m *Module, p *gpkg, decls []*gpkg) {
 			}
 		}
 		return l
+	}
+	// annotated types of this package whose fields are declared elsewhere: a defined type over another package's
+	// struct, and a struct that embeds one (promoted fields)
+	for _, im := range p.imports {
+		if len(im.types) == 0 || im.thin || len(im.relay) > 0 || g.o.NoAnnotations {
+			continue
+		}
+		a := p.alias[im]
+		add("// Frozen has the fields of " + a + ".Plain.\n// @immutable\ntype Frozen " + a + ".Plain")
+		add("// Outer embeds a struct of another package.\n// @immutable\n// @constructor NewOuter\ntype Outer struct {\n\t" + a + ".Plain\n\tOwn int\n}")
+		add("func NewOuter() *Outer {\n" + indent([]string{"o := &Outer{} " + g.nextTag(), "o.X = 1 " + g.nextTag(), "return o"}) + "}")
+		fz, ou := g.local("fz"), g.local("ou")
+		add("func UseFrozen(" + fz + " *Frozen, " + ou + " *Outer) {\n" + indent([]string{fz + ".X = 1 " + g.nextTag(), fz + ".X++ " + g.nextTag(), ou + ".X = 2 " + g.nextTag(), ou + ".Plain.X = 3 " + g.nextTag(),
+			ou + ".Own += 4 " + g.nextTag(), "_ = Outer{} " + g.nextTag(), "_ = Frozen{} " + g.nextTag()}) + "}")
+		break
+	}
+	// aliases of pointers to visible types: `var h Handle` declares a pointer, whatever it is called
+	for i, t := range visible {
+		if t.kind == 0 && i < 2 {
+			direct := t.name
+			if t.pkg != p {
+				direct = p.alias[t.pkg] + "." + t.name
+			}
+			hn := "Handle" + aliasKey(t)
+			add("type " + hn + " = *" + direct)
+			hz := g.local("hz")
+			add("func Use" + hn + "() {\n" + indent([]string{"var " + hz + " " + hn + " " + g.nextTag(), "_ = " + hz, "var " + hz + "2 *" + g.typeRef(p, t, -1) + " " + g.nextTag(), "_ = " + hz + "2",
+				hz + " = new(" + g.typeRef(p, t, 12) + ") " + g.nextTag(), hz + ".X = 1 " + g.nextTag()}) + "}")
+		}
 	}
 	// probes (C06): the same statements over a type in its declaring package and in every direct importer, labelled
 	// /*@probe:<declaring path>.<type>:<k>*/ — outside constructors, outside @testonly functions, without @ignore
@@ -1118,6 +1156,8 @@ func (g *generator) renderPkg(m *Module, p *gpkg, decls []*gpkg) {
 		t := rng.Pick(r, visible)
 		vars := []scopeVar{{"v", t, true}}
 		add("//line gen.y:1000\nfunc FromGenerator(v *" + g.typeRef(p, t, 0) + ") {\n" + indent(g.body(p, vars, nil, 4)) + "}")
+		// … and one naming an existing file of the package, without a column (positions then have column 0)
+		add("//line f0.go:3\nfunc FromTemplate(v *" + g.typeRef(p, t, 0) + ") {\n" + indent(g.body(p, vars, nil, 3)) + "}")
 	}
 	if g.o.TestFiles {
 		add("func UseExcl() int { return ExclHelper() " + g.nextTag() + " }")
@@ -1189,6 +1229,44 @@ func (g *generator) renderPkg(m *Module, p *gpkg, decls []*gpkg) {
 		}
 		sb.WriteString(body)
 		m.Files[fmt.Sprintf("%s/f%d.go", dir, fi)] = sb.String()
+	}
+
+	if len(visible) > 0 && !g.o.NoAnnotations {
+		// not a test file: the name only contains _test_
+		t := visible[0]
+		impl := ""
+		if t.pkg != p && g.o.Spelling != 1 && g.o.Spelling != 2 {
+			impl = fmt.Sprintf("import %q\n\n", t.pkg.path)
+			if p.alias[t.pkg] != t.pkg.name {
+				impl = fmt.Sprintf("import %s %q\n\n", p.alias[t.pkg], t.pkg.path)
+			}
+		}
+		ref := g.typeRef(p, t, -1)
+		b := []string{"var d " + ref + " " + g.nextTag(), "_ = d", "_ = new(" + ref + ") " + g.nextTag()}
+		if t.kind == 0 {
+			b = append(b, "e := &"+ref+"{} "+g.nextTag(), "e.X = 1 "+g.nextTag())
+			if t.tmeth {
+				b = append(b, "e.ResetForTest() "+g.nextTag())
+			}
+		}
+		m.Files[dir+"/lib_test_data.go"] = "package " + p.name + "\n\n" + impl + "func TestDataHelper() {\n" + indent(b) + "}\n"
+	}
+	if g.o.Ignores && len(visible) > 0 {
+		// the last declaration of the package's last file carries two stacked @ignore comments
+		t := visible[0]
+		if t.kind == 0 {
+			impl := ""
+			if t.pkg != p && g.o.Spelling != 1 && g.o.Spelling != 2 {
+				impl = fmt.Sprintf("import %q\n\n", t.pkg.path)
+				if p.alias[t.pkg] != t.pkg.name {
+					impl = fmt.Sprintf("import %s %q\n\n", p.alias[t.pkg], t.pkg.path)
+				}
+			}
+			ref := g.typeRef(p, t, -1)
+			pair := [][2]string{{"IMM01", "CTOR01"}, {"CTOR", "IMM"}, {"TONL01", "IMM01"}, {"IMM03", "IMM01"}}[g.xr.Intn(4)]
+			b := []string{"v.X = 1 " + g.nextTag(), "_ = " + ref + "{} " + g.nextTag(), "v.X++ " + g.nextTag(), "v.Items[0] = 2 " + g.nextTag()}
+			m.Files[dir+"/zzz_stack.go"] = "package " + p.name + "\n\n" + impl + "func BeforeStack(v *" + ref + ") {\n" + indent([]string{"v.X = 9 " + g.nextTag()}) + "}\n\n// @ignore " + pair[0] + "\n// @ignore " + pair[1] + "\nfunc StackedLast(v *" + ref + ") {\n" + indent(b) + "}\n"
+		}
 	}
 
 	// ---- a file whose FIRST use of a foreign type sits in an @ignore scope, followed by an unsuppressed use
